@@ -1,8 +1,30 @@
 (* Props_C06.v — property C06 (quotas and disposal safety) against the pool LTS. *)
 From Coq Require Import ZArith List Bool.
-From TV Require Import PoolModel PoolSets PoolInv PoolThm.
+From TV Require Import PoolModel PoolSets PoolInv PoolThm PoolQuota.
 Import ListNotations.
 Local Open Scope Z_scope.
+
+(* first sentence: never more addresses on an interface than the instance type allows.  With a fault-free cloud (the
+   quantifier of C06) and interfaces created into empty slots (false only after the delete race refuted below), from a slot
+   with a limit of at least one: in every reachable state a call that assigns n more addresses of a family finds
+   `addresses on the interface + n <= limit`, and a new interface is asked for with at most `limit` addresses per family.
+   The invariant behind it: addresses + queued requests (filtered or not) never exceed the limit. *)
+Theorem c06_quota_assign : forall ty on4 on6 cap batch ls s f n s',
+  1 <= cap -> run_q (init_slot ty on4 on6 cap batch) ls -> run (init_slot ty on4 on6 cap batch) ls = Some s ->
+  step s (LAssignBegin f n) = Some s' -> setlen s f + n <= s_cap s.
+Proof.
+  intros ty on4 on6 cap batch ls s f n s' Hc Hr Hs Hb.
+  exact (quota_assign s f n s' (q_run ls _ s (q_init ty on4 on6 cap batch Hc) Hr Hs) Hb).
+Qed.
+Print Assumptions c06_quota_assign.
+Theorem c06_quota_create : forall ty on4 on6 cap batch ls s n4 n6 s',
+  1 <= cap -> run_q (init_slot ty on4 on6 cap batch) ls -> run (init_slot ty on4 on6 cap batch) ls = Some s ->
+  step s (LCreateBegin n4 n6) = Some s' -> n4 <= s_cap s /\ n6 <= s_cap s.
+Proof.
+  intros ty on4 on6 cap batch ls s n4 n6 s' Hc Hr Hs Hb.
+  exact (quota_create s n4 n6 s' (q_run ls _ s (q_init ty on4 on6 cap batch Hc) Hr Hs) Hb).
+Qed.
+Print Assumptions c06_quota_create.
 
 (* every unassign call names only addresses no pod owns and never the primary address; every delete
    call is made with no address in use, no request in the allocating queues, and never for a trunk or
@@ -55,3 +77,15 @@ Example c06_ex :
   run_env (init_slot 0 true false 4 2) ls /\
   match run (init_slot 0 true false 4 2) ls with Some s => s_log s = [CUnassign F4 [51] false false; CAssign F4 1 1; CCreate 1 0] | None => False end.
 Proof. vm_compute. repeat split. Qed.
+
+(* the quota theorems are not vacuous: a run that creates an interface and assigns an address meets their hypotheses, and a
+   third pod is refused on an interface of limit 2 that holds 1 address and has 1 request queued *)
+Example c06_quota_ex :
+  let pre := [LAllocEnqueue 1 101 false 0 false; LFwArm; LTick 300; LCreateBegin 1 0; LCreateEnd true 7 false 50 [50] [] 0;
+              LWorkerTake 1 50 0 true; LAllocEnqueue 2 102 false 0 false; LFwArm; LTick 300] in
+  run_q (init_slot 0 true false 2 2) pre /\
+  match run (init_slot 0 true false 2 2) pre with
+  | Some s => step s (LAssignBegin F4 1) <> None /\ step s (LAssignBegin F4 2) = None /\
+              step s (LAllocEnqueue 3 103 false 0 false) = None /\ step s (LAllocReject 103 false 0 false 3) <> None
+  | None => False end.
+Proof. vm_compute. repeat split; discriminate. Qed.
